@@ -84,6 +84,7 @@ pub struct RestartStats {
 	pub claimed_then_sent: u64,
 	pub dust_forfeited_after_stale_restart: u64,
 	pub parts_checked: u64,
+	pub uncommitted_fulfil_then_onchain: u64,
 }
 
 /// What the harness knows about the persisted state at the moment of a manager snapshot.
@@ -109,6 +110,8 @@ pub struct RestartOracle {
 	seen_outdated: BTreeSet<(usize, ChannelId)>,
 	/// per node: step of the manager snapshot used by its latest restart
 	last_restart_snapshot: BTreeMap<usize, u64>,
+	/// per node: step of its latest restart
+	last_restart_step: BTreeMap<usize, u64>,
 	/// (node, hash) -> step of the first PaymentSent
 	sent_at: BTreeMap<(usize, [u8; 32]), u64>,
 	claimable_at: BTreeMap<(usize, [u8; 32]), u64>,
@@ -185,6 +188,7 @@ impl RestartOracle {
 			expect_outdated: BTreeSet::new(),
 			seen_outdated: BTreeSet::new(),
 			last_restart_snapshot: BTreeMap::new(),
+			last_restart_step: BTreeMap::new(),
 			sent_at: BTreeMap::new(),
 			claimable_at: BTreeMap::new(),
 			commit_deliveries: BTreeMap::new(),
@@ -219,6 +223,7 @@ impl RestartOracle {
 			match ev {
 				M::S(SEvent::Restart { node, snapshot_step, monitor_ids, ok, detail }) => {
 					self.last_restart_snapshot.insert(node, snapshot_step);
+					self.last_restart_step.insert(node, at);
 					if let Some(info) = self.snap_info.get(&(node, snapshot_step)) {
 						self.sent_lineage.insert(node, info.sent.clone());
 					}
@@ -332,6 +337,15 @@ impl RestartOracle {
 							let tracked_without_preimage = sim.monitor_htlcs_at_restart.get(&node).map(|v| v.iter().any(|(h, pre)| *h == payment_hash.0 && !*pre)).unwrap_or(false);
 							if stale && tracked_without_preimage && dustable {
 								self.stats.dust_forfeited_after_stale_restart += 1;
+								continue;
+							}
+							// the fulfil the old lineage saw was never committed (no commitment_signed covering it reached
+							// the node before it stopped), so no monitor ever held the preimage; the HTLC's fate was then
+							// decided on chain and the restarted lineage, which never handled PaymentSent, reports what
+							// the chain says
+							let crash = self.last_restart_step.get(&node).cloned().unwrap_or(u64::MAX);
+							if stale && tracked_without_preimage && !sim.fulfil_committed_before(node, &payment_hash.0, crash) {
+								self.stats.uncommitted_fulfil_then_onchain += 1;
 								continue;
 							}
 							let key = if stale && !tracked {
